@@ -87,7 +87,11 @@ Definition sha256_int (msg : list int) : list int :=
 (* the interface models use: bytes are N < 256 *)
 Definition int_of_N (n : N) : int := of_Z (Z.of_N n).
 Definition N_of_int (i : int) : N := Z.to_N (to_Z i).
-Definition sha256 (msg : list N) : list N := map N_of_int (sha256_int (map int_of_N msg)).
+(* fast path for bytes (0..255): eight bit tests instead of a 63-step conversion *)
+Definition bitN (i m : int) (v : N) : N := if eqb (i land m) 0 then 0%N else v.
+Definition N_of_byte (i : int) : N :=
+  (bitN i 1 1 + bitN i 2 2 + bitN i 4 4 + bitN i 8 8 + bitN i 16 16 + bitN i 32 32 + bitN i 64 64 + bitN i 128 128)%N.
+Definition sha256 (msg : list N) : list N := map N_of_byte (sha256_int (map int_of_N msg)).
 
 (* FIPS 180-2 test vectors, checked by the kernel's VM at build time *)
 Example sha256_empty : sha256 [] =
